@@ -23,6 +23,48 @@ fn second_problem(scn: &mut Scenario, rng: &mut Xo, families: &[&'static str]) {
         goal: GoalSpec { target: wb.target, radius: wb.goal_radius, sampler, sampler_seed: rng.u64() % 1_000_000 },
         world: scn.worlds.len() - 1,
     });
+    scn.params.insert("sealed1".into(), if wb.sealed { 1.0 } else { 0.0 });
+    scn.params.insert("start_invalid1".into(), if wb.start_invalid { 1.0 } else { 0.0 });
+}
+
+/// A second problem in world 0 (the world of the checker that stays installed when a PRM's
+/// problem is replaced); optionally with its start marginally inside one of world 0's balls.
+fn second_problem_same_world(scn: &mut Scenario, rng: &mut Xo, invalid_start: bool) {
+    let mut geo = crate::spaces::geo_for(&scn.space).unwrap();
+    geo.set_worlds(&scn.worlds);
+    let mut pick = |rng: &mut Xo| -> St {
+        for _ in 0..200 {
+            if let Some(s) = geo.sample(rng) {
+                if geo.valid(0, &s) {
+                    return s;
+                }
+            }
+        }
+        scn.problems[0].starts[0].clone()
+    };
+    let (mut s2, t2) = (pick(rng), pick(rng));
+    let mut inv = false;
+    if invalid_start {
+        let balls: Vec<(St, f64)> = scn.worlds[0].obstacles.iter().filter_map(|o| if let Obstacle::Ball { c, r } = o { Some((c.clone(), *r)) } else { None }).collect();
+        if !balls.is_empty() {
+            let (c, r) = rng.pick(&balls).clone();
+            let depth = r * rng.log_range(1e-9, 0.5);
+            if let Some(p) = gen::point_at(&*geo, rng, &c, r - depth) {
+                if !geo.valid(0, &p) {
+                    s2 = p;
+                    inv = true;
+                }
+            }
+        }
+    }
+    let g = scn.problems[0].goal.clone();
+    scn.problems.push(ProblemSpec {
+        starts: vec![s2],
+        goal: GoalSpec { target: t2, radius: g.radius, sampler: g.sampler, sampler_seed: g.sampler_seed + 1 },
+        world: 0,
+    });
+    scn.params.insert("sealed1".into(), 0.0);
+    scn.params.insert("start_invalid1".into(), if inv { 1.0 } else { 0.0 });
 }
 
 pub fn solve_budget(iters: u64) -> CallSpec {
@@ -30,9 +72,17 @@ pub fn solve_budget(iters: u64) -> CallSpec {
 }
 
 pub fn with_setup_histories(scn: &mut Scenario, rng: &mut Xo, max_iters: u64) {
-    // API histories that precede the final solve
-    let feasible = ["open", "balls", "shell_door"];
-    second_problem(scn, rng, &feasible);
+    with_histories(scn, rng, max_iters, &["open", "balls", "shell_door"], false)
+}
+
+/// API histories that precede the final solve; `second` = world families of the second problem,
+/// `fault_start` = a replaced PRM problem gets a start marginally inside an obstacle.
+pub fn with_histories(scn: &mut Scenario, rng: &mut Xo, max_iters: u64, second: &[&'static str], fault_start: bool) {
+    if scn.planner.kind == PlannerKind::PRM && fault_start {
+        second_problem_same_world(scn, rng, true);
+    } else {
+        second_problem(scn, rng, second);
+    }
     let l = crate::spaces::geo_for(&scn.space).unwrap().lvs();
     let ext = scn.param("ext").unwrap_or(1.0);
     let pl = scn.planner.clone();
@@ -175,6 +225,11 @@ impl Check for PathProp {
             return scn;
         }
         match self.id {
+            "C01" if index % 4 == 3 => {
+                // histories: re-setup with / replacement by a problem whose start is marginally
+                // inside an obstacle or whose goal region overlaps one
+                with_histories(&mut scn, &mut rng, o.max_iters.min(120), &["start_in_obstacle", "start_in_obstacle", "goal_overlap", "goal_invalid", "balls"], true);
+            }
             "C01" => {
                 if rng.chance(0.25) {
                     // stepwise: interrupted and resumed
@@ -195,6 +250,19 @@ impl Check for PathProp {
                 // long edges: RRT* radii >> step, PRM radii spanning walls
                 if rng.chance(0.5) {
                     scn.planner.search_radius = scn.planner.max_distance * rng.range(2.0, 8.0);
+                }
+                // interrupted and resumed (every edge kind must survive a second solve on the
+                // kept trees); goal regions wide enough to span obstacles, sampled afresh
+                if scn.planner.kind != PlannerKind::PRM && rng.chance(0.35) {
+                    let l = crate::spaces::geo_for(&scn.space).unwrap().lvs();
+                    let ext = scn.param("ext").unwrap_or(1.0);
+                    let n = gen::affordable_iters(&scn.planner, l, ext, 1 + rng.below(o.max_iters));
+                    scn.calls = vec![CallSpec::Setup { problem: 0 }, solve_budget(1 + rng.below(12)), solve_budget(n)];
+                    if rng.chance(0.5) {
+                        scn.calls.insert(2, solve_budget(1 + rng.below(12)));
+                    }
+                    scn.problems[0].goal.sampler = GoalSampler::Harness;
+                    scn.problems[0].goal.radius *= rng.range(1.0, 3.0);
                 }
             }
             "C06" => {
@@ -250,6 +318,10 @@ impl Check for PathProp {
                                 timeout_ns: u64::MAX / 4,
                                 stalls: vec![Stall { at: Phase::Sample, nth: 1 + rng.below(o.max_iters), ns: u64::MAX / 2 }],
                             };
+                        }
+                        4 => {
+                            // re-setup with a problem whose goal is unreachable
+                            with_histories(&mut scn, &mut rng, o.max_iters.min(80), &["goal_invalid", "goal_invalid", "sealed_goal", "sealed_start"], false);
                         }
                         2 | 3 => {
                             // a second (and third) solve on the kept tree
@@ -311,7 +383,7 @@ impl Check for PathProp {
             }
             let nt = match self.id {
                 "C01" => {
-                    if scn.param("start_invalid") == Some(1.0) {
+                    if scn.param("start_invalid") == Some(1.0) || scn.param("start_invalid1") == Some(1.0) {
                         rep.probe("start_invalid");
                     }
                     ev.c01(*ci, &mut v)
@@ -325,7 +397,19 @@ impl Check for PathProp {
             rep.nontrivial |= nt;
         }
         if self.id == "C06" {
-            let sealed = scn.param("sealed") == Some(1.0);
+            let sealed_at = |ci: usize| -> Option<String> {
+                let (pi, _) = crate::sim::installed_problem(scn, &out, ci)?;
+                // the sealing argument needs the checker of the problem's own world
+                if ev.checker_at(ci) != Some(scn.problems[pi].world) {
+                    return None;
+                }
+                let key = if pi == 0 { "sealed" } else { "sealed1" };
+                if scn.param(key) == Some(1.0) {
+                    Some(if pi == 0 { scn.family.clone() } else { "second_problem".into() })
+                } else {
+                    None
+                }
+            };
             if scn.param("zero_timeout") == Some(1.0) {
                 rep.probe("zero_timeout");
             }
@@ -346,18 +430,19 @@ impl Check for PathProp {
                         format!("{} did not return: {m}", ev.pk()),
                     ));
                 }
-                if sealed && matches!(scn.calls[ci], CallSpec::Solve { .. }) {
+                let sealed_fam = if matches!(scn.calls[ci], CallSpec::Solve { .. }) { sealed_at(ci) } else { None };
+                if let Some(fam) = &sealed_fam {
                     rep.probe("sealed_runs");
                     rep.nontrivial = true;
                     if let Res::Path(p) = &call.res {
                         v.push(viol(
                             "C06",
-                            format!("C06/false_success/{}/{}", ev.pk(), scn.family),
+                            format!("C06/false_success/{}/{}", ev.pk(), fam),
                             format!(
                                 "{} returned Ok(path[{}]) in a world where the goal is provably unreachable at the space's resolution ({})",
                                 ev.pk(),
                                 p.len(),
-                                scn.family
+                                fam
                             ),
                         ));
                     }
